@@ -391,6 +391,13 @@ def data_witness_probe(pid, classes=("Inventory", "InventoryHP")):
     if not cand:
         return []
     found = []
+    if pid == "C03":
+        st, vv = {}, []
+        balance_stream(random.Random(0), 0, st, vv, [], only=cand[:8])
+        for v in vv:
+            found.append(dict(v["payload"], name="data-" + v["name"], key="data-" + v["key"], failing_certificate_components=failing))
+        if found:
+            return found
     req = {"cases": [], "units": ["s", "y", "d"], "halving": cand if "Inventory" in classes else [],
            "hp": cand if "InventoryHP" in classes else [], "hp_units": ["s", "y", "d"], "bad_units": []}
     impl = U.run_impl("impl_time.py", req, timeout=3000)
@@ -420,3 +427,35 @@ def replay_case(c, checker=None):
                  pre=PRE.replace("Model.Default", "Model.Default Model.Synth"),
                  py_pred=parent_tail_pred(ds) if c.get("cls") == "InventoryHP" else None)
     return {"fails": bool(viol), "streams": streams, "violations": [v["payload"].get("fails") for v in viol]}
+
+
+def balance_stream(rng, n, streams, viol, samples, only=None):
+    """C03, the atom-balance clause on the implementation with the data set's own branching fractions (independent of the matrices
+    of the model): amount(t) - amount(0) = - own cumulative decays + sum over parents of bf x their cumulative decays."""
+    import numpy as np
+    names, stable = names_of(None)
+    radio = [x for x, s in zip(names, stable) if not s]
+    d = np.load(npz_path(None), allow_pickle=True)
+    hl = {str(a): U.half_life_seconds(float(h[0]), str(h[1]), float(d["year_conv"])) for a, h in zip(d["nuclides"], d["hldata"]) if float(h[0]) != math.inf}
+    pick = only if only is not None else (rng.sample(radio, n) + [x for x in extreme_parents()[:13] if x in radio][:6])
+    cases = []
+    for nuc in pick:
+        cases.append({"nuc": nuc, "t": float(hl[nuc] * rng.choice([0.3, 1.0, 3.0, 20.0])).hex(), "cls": "Inventory"})
+    for nuc in pick[:2]:
+        cases.append({"nuc": nuc, "t": float(hl[nuc]).hex(), "cls": "InventoryHP"})
+    res = U.run_impl("impl_balance.py", {"cases": cases}, timeout=3000)
+    bad = []
+    for c, r in zip(cases, res):
+        if "err" in r:
+            bad.append((c, "raised " + r["err"]))
+        elif r["stable_listed"]:
+            bad.append((c, f"stable nuclides listed in cumulative decays: {r['stable_listed'][:3]}"))
+        elif r["worst"] > 1e-9:
+            bad.append((c, f"atom balance open for {r['who']}: imbalance {r['worst']:.3e} of the initial atoms"))
+    streams["atom_balance"] = {"cases": len(cases), "impl_property_failures": len(bad),
+                               "what": "lone parents (random + the structurally extreme ones), decay and cumulative_decays over the same time: for every nuclide "
+                                       "amount(t) - amount(0) = -own decays + sum_p bf(p->i) x decays of p, with the data set's pairwise branching fractions (1e-9 x atoms)"}
+    for c, why in bad[:3]:
+        viol.append({"name": f"balance-{len(viol)}", "found_input": True, "key": f"balance:{c['nuc']}:{why[:30]}",
+                     "payload": {"fails": why, "input": c, "entry": "decay + cumulative_decays + branching_fraction"}})
+    return bad
